@@ -4,7 +4,10 @@ import json, sys, os
 HERE = os.path.dirname(os.path.dirname(os.path.abspath(__file__)))
 props = {json.loads(l)['id']: json.loads(l) for l in open(os.path.join(HERE, 'properties.jsonl'))}
 pid, wt, n = sys.argv[1], sys.argv[2], sys.argv[3]
+WAVE = sys.argv[4] if len(sys.argv) > 4 else "1"
+TAG = pid.lower() + ("w" + WAVE if WAVE != "1" else "")
 p = props[pid]
+EXTRA = "" if WAVE == "1" else " This is a second round: an earlier round already produced the obvious candidates (wrong index/order convention, missing conjugate, dropped constraint, wrong subsystem). Prefer OTHER kinds of regressions, each of the three of a different kind, e.g.: behaviour that depends on which of several documented ARGUMENT FORMS is used (scalar / list / ndarray / omitted / tuple; int vs float scalar; 1-D vs column vector); on the dtype or memory layout of an input or on the FIRST element of a list deciding something for all elements; on exact BOUNDARY values (0, 1, equal versus unequal dimensions, a single element, an empty remainder, the last index); on the ORDER in which elements of a set are listed; on repeated calls or call order (state or caller data modified in place, caching); on a tolerance used with the wrong sign/scale or applied to the wrong quantity; on an early-exit shortcut that is valid only in a special case."
 print(f"""You are testing how well a verification effort detects realistic regressions in the open-source Python library toqito (quantum information toolkit). You work ONLY inside your own scratch git worktree of the repository at {wt} (a checkout of the current HEAD). Do not read, list or touch /verif or /repo or any other worktree under /tmp/wt; do not use any information other than the property text below and the source code in your worktree.
 
 Property (must hold for toqito):
@@ -13,11 +16,11 @@ STATEMENT: {p['statement']}
 QUANTIFIED OVER: {p['quantifier']['text']}
 Relevant files: {', '.join(p['anchors']['files'])}
 
-Task: produce {n} DIFFERENT, independent changes to the toqito source (each on its own, starting from the clean HEAD), each of which BREAKS the property above while the code still imports/compiles and the repository's EXISTING test suite still passes unchanged. I want realistic bugs of the kind a maintainer could introduce during a refactoring or an "optimisation" — and specifically ones that need something particular to manifest: an unusual but legitimate input (unequal local dimensions, non-involutive permutation, rectangular or complex non-symmetric data, a particular argument form such as an omitted/scalar/list argument, a particular size, a sparse input, a particular listing order), or two cooperating sites that each look fine alone, or a multi-step sequence — NOT ones that ordinary use or the existing tests would expose at once, and NOT crude sabotage (no `if input == special: return garbage`, no random behaviour). Each change should be small (a few lines).
+Task: produce {n} DIFFERENT, independent changes to the toqito source (each on its own, starting from the clean HEAD), each of which BREAKS the property above while the code still imports/compiles and the repository's EXISTING test suite still passes unchanged. I want realistic bugs of the kind a maintainer could introduce during a refactoring or an "optimisation" — and specifically ones that need something particular to manifest: an unusual but legitimate input (unequal local dimensions, non-involutive permutation, rectangular or complex non-symmetric data, a particular argument form such as an omitted/scalar/list argument, a particular size, a sparse input, a particular listing order), or two cooperating sites that each look fine alone, or a multi-step sequence — NOT ones that ordinary use or the existing tests would expose at once, and NOT crude sabotage (no `if input == special: return garbage`, no random behaviour). Each change should be small (a few lines).{EXTRA}
 
-For each change k = 1..{n}, deliver in the directory {wt}/_mut/{pid.lower()}_k/ :
+For each change k = 1..{n}, deliver in the directory {wt}/_mut/{TAG}_k/ :
   * patch.diff — `git diff` of the change against HEAD (source files under toqito/ only; do not edit or add tests in the patch);
-  * demo.py — a small standalone program (run as `cd {wt} && PYTHONPATH={wt} /venv/bin/python _mut/{pid.lower()}_k/demo.py`) that exits 0 on the clean HEAD and exits 1 (printing what is wrong) with the patch applied, demonstrating the violation of the property on a concrete input;
+  * demo.py — a small standalone program (run as `cd {wt} && PYTHONPATH={wt} /venv/bin/python _mut/{TAG}_k/demo.py`) that exits 0 on the clean HEAD and exits 1 (printing what is wrong) with the patch applied, demonstrating the violation of the property on a concrete input;
   * meta.json — {{"property": "{pid}", "summary": one sentence, "needs": what particular input/sequence/configuration is needed for the bug to manifest, "files": [changed files], "tests_run": the exact test command(s) you ran with the patch applied and their result}}.
 How to run things: Python is /venv/bin/python; always set PYTHONPATH={wt} and run from {wt} so that `import toqito` resolves to your worktree (check with `PYTHONPATH={wt} /venv/bin/python -c "import toqito.perms as p; print(p.__file__)"`). Existing tests: `cd {wt} && PYTHONPATH={wt} /venv/bin/python -m pytest -q -p no:cacheprovider <test dirs>`; you must at least run the test directories of every module you touched and of modules that call the touched function (grep for callers), with the patch applied, and they must all pass. (The whole suite takes ~15 minutes; running it completely is welcome but optional; never edit tests.) Procedure per change: apply the edit, run demo (must fail), run tests (must pass), save `git diff > _mut/.../patch.diff`, then `git checkout -- toqito` to return to the clean HEAD and verify demo passes on the clean tree. Leave the worktree clean (only the untracked _mut/ directory) at the end. Keep every scratch file inside your worktree (nothing in /tmp outside it). No network is available.
 
